@@ -19,6 +19,7 @@ CF = "mila::compression_format::CompressionFormat"
 LZ10 = "mila::lz10::LZ10CompressionFormat"
 LZ13 = "mila::lz13::LZ13CompressionFormat"
 DEC = "nintendo_lz::decompress_arr"
+DECS = (DEC, "nintendo_lz::decompress")      # decompress_arr is `decompress(&mut Cursor::new(input))`
 
 
 def run(facts, rep, ctx):
@@ -169,36 +170,96 @@ def first_byte_tests(p, param=2):
     return out
 
 
+def slice_offset(t, param=2, depth=0):
+    """k when `t` denotes the input from byte k on (`bytes`, `bytes[k..]`, `bytes.split_at(k).1`, `get(k..)`, a rest
+    pattern, ...), or a prefix of that; None when it is not a view of the input."""
+    t = strip_refs(t)
+    while t[0] in ("deref", "cast"):
+        t = strip_refs(t[1])
+    if depth > 8:
+        return None
+    if t[0] == "param":
+        return 0 if t[1] == param else None
+    if t[0] == "subslice":
+        base = slice_offset(t[1], param, depth + 1)
+        return None if base is None else base + tuple(t[2])[0]
+    if t[0] == "field" and strip_refs(t[1])[0] == "call":
+        c = strip_refs(t[1])
+        if c[1].endswith("<impl [T]>::split_at") and len(c[2]) == 2 and t[3] in (0, 1):
+            base = slice_offset(c[2][0], param, depth + 1)
+            mid = strip_refs(c[2][1])
+            if base is None:
+                return None
+            if t[3] == 0:
+                return base
+            return base + mid[1] if mid[0] == "const" and isinstance(mid[1], int) else None
+    if t[0] in ("field", "downcast"):
+        # payload of `get(k..)` / `split_first()` / `split_at_checked(k)` results
+        inner = strip_refs(t[1])
+        if t[0] == "field" and inner[0] == "downcast" and strip_refs(inner[1])[0] == "call":
+            c = strip_refs(inner[1])
+            if c[1].endswith("<impl [T]>::get") and len(c[2]) == 2:
+                rg = strip_refs(c[2][1])
+                base = slice_offset(c[2][0], param, depth + 1)
+                if base is not None and rg[0] == "agg" and (rg[2] or "").endswith("RangeFrom") and rg[4] and rg[4][0][0] == "const":
+                    return base + rg[4][0][1]
+                if base is not None and rg[0] == "agg" and ((rg[2] or "").endswith("RangeTo") or ((rg[2] or "").endswith("::Range") and rg[4] and rg[4][0][:2] == ("const", 0))):
+                    return base
+        if t[0] == "field" and inner[0] == "field" and strip_refs(inner[1])[0] == "downcast":
+            c = strip_refs(strip_refs(inner[1])[1])
+            if c[0] == "call" and c[1].endswith("<impl [T]>::split_first") and t[3] == 1 and inner[3] == 0:
+                base = slice_offset(c[2][0], param, depth + 1)
+                return None if base is None else base + 1
+        return None
+    if t[0] == "call" and "ops::Index" in t[1] and len(t[2]) == 2:
+        rg = strip_refs(t[2][1])
+        base = slice_offset(t[2][0], param, depth + 1)
+        if base is None or rg[0] != "agg":
+            return None
+        kind = (rg[2] or "").rsplit("::", 1)[-1]
+        if kind == "RangeFrom" and rg[4] and rg[4][0][0] == "const":
+            return base + rg[4][0][1]
+        if kind in ("RangeTo", "RangeFull", "RangeToInclusive"):
+            return base
+        if kind in ("Range", "RangeInclusive") and rg[4] and rg[4][0][0] == "const":
+            return base + rg[4][0][1]
+        return None
+    return None
+
+
 def is_byte0(t, param=2):
     t = strip_refs(t)
     while t[0] == "cast":
         t = strip_refs(t[1])
-    if t[0] == "index" and t[2][:2] == ("const", 0):
-        r = strip_refs(t[1])
-        return r[0] == "param" and r[1] == param
-    if t[0] == "call" and "ops::Index" in t[1] and len(t[2]) == 2 and strip_refs(t[2][1])[:2] == ("const", 0):
-        r = strip_refs(t[2][0])
-        return r[0] == "param" and r[1] == param
+    if t[0] == "index" and t[2][0] == "const":
+        k = slice_offset(t[1], param)
+        return k is not None and k + t[2][1] == 0
+    if t[0] == "call" and "ops::Index" in t[1] and len(t[2]) == 2 and strip_refs(t[2][1])[0] == "const":
+        k = slice_offset(t[2][0], param)
+        return k is not None and k + strip_refs(t[2][1])[1] == 0
     # *bytes.first()? / bytes.get(0)
     for x in walk(t):
         if x[0] == "call" and (x[1].endswith("<impl [T]>::first") or (x[1].endswith("<impl [T]>::get") and len(x[2]) == 2 and strip_refs(x[2][1])[:2] == ("const", 0))):
-            r = strip_refs(x[2][0])
-            if r[0] == "param" and r[1] == param and not any(y[0] == "bin" for y in walk(t)):
+            if slice_offset(x[2][0], param) == 0 and not any(y[0] == "bin" for y in walk(t)):
+                return True
+        if x[0] == "call" and x[1].endswith("<impl [T]>::split_first") and slice_offset(x[2][0], param) == 0 and not any(y[0] == "bin" for y in walk(t)):
+            # the `.0` (first element) of split_first's payload
+            tt = strip_refs(t)
+            while tt[0] == "deref":
+                tt = strip_refs(tt[1])
+            if tt[0] == "field" and tt[3] == 0:
                 return True
     return False
 
 
 def tail_from(t, k=4, param=2):
-    """t denotes bytes[k..] of the input: a RangeFrom index, `get(k..)`, or the rest binding of a slice pattern"""
+    """t denotes bytes[k..] of the input: a RangeFrom index, `get(k..)`, `split_at(k).1`, or the rest binding of a
+    slice pattern"""
     for x in walk(t):
+        if x[0] in ("call", "field", "subslice") and slice_offset(x, param) == k:
+            return True
         if x[0] == "agg" and x[4] and x[4][0][:2] == ("const", k) and (x[2] or "").endswith("RangeFrom"):
             return True
-        if x[0] == "subslice" and tuple(x[2])[0] == k and strip_refs(x[1])[0] == "param" and strip_refs(x[1])[1] == param:
-            return True
-        if x[0] == "call" and x[1].endswith("<impl [T]>::get") and len(x[2]) == 2:
-            rg = strip_refs(x[2][1])
-            if rg[0] == "agg" and rg[4] and rg[4][0][:2] == ("const", k) and (rg[2] or "").endswith("RangeFrom"):
-                return True
     return False
 
 
@@ -237,7 +298,7 @@ def lz13_classes(facts, rep, R1, R2):
         tested |= set(v for v, h in cls)
         if not cls:
             continue
-        dec = [e for e in p.events if e["k"] == "call" and e["callee"] == DEC]
+        dec = [e for e in p.events if e["k"] == "call" and e["callee"] in DECS]
         if (0, True) in cls:
             key = "stored"
         elif (0x13, True) in cls:
@@ -311,7 +372,7 @@ def decoder_totality(facts, rep, R3, ctx):
         if not (b.pub and b.kind == "AssocFn" or b.pub):
             continue
         for bb, t in b.calls():
-            if (callee_names(t)[1] or callee_names(t)[0]) == DEC:
+            if (callee_names(t)[1] or callee_names(t)[0]) in DECS:
                 callers.append((b, bb, t))
                 seen_raw.add(b.id)
                 break
@@ -319,11 +380,11 @@ def decoder_totality(facts, rep, R3, ctx):
     for b in facts.bodies.values():
         if b.pub or b.kind == "Closure":
             continue
-        if any((callee_names(t)[1] or callee_names(t)[0]) == DEC for bb, t in b.calls()):
+        if any((callee_names(t)[1] or callee_names(t)[0]) in DECS for bb, t in b.calls()):
             used = any(any((callee_names(t2)[1] or "") == b.name for _, t2 in pb.calls()) for pb, _, _ in callers)
             if not callers or (b.name in facts.known()[0] and not used):
                 for bb, t in b.calls():
-                    if (callee_names(t)[1] or callee_names(t)[0]) == DEC:
+                    if (callee_names(t)[1] or callee_names(t)[0]) in DECS:
                         callers.append((b, bb, t))
                         break
     if not callers:
@@ -369,7 +430,7 @@ def ok_provenance(facts, rep, R5):
             if p.end != "ret" or is_err_term(p.ret) is not False:
                 continue
             n += 1
-            dec = [e for e in p.events if e["k"] == "call" and e["callee"] == DEC]
+            dec = [e for e in p.events if e["k"] == "call" and e["callee"] in DECS]
             if dec and any(x == dec[0]["val"] for x in walk(p.ret)):
                 continue
             stored = fmtn == LZ13 and (0, True) in first_byte_tests(p)
@@ -404,7 +465,7 @@ def error_mapping(facts, rep, R4):
         bad = None
         seen = 0
         for p in paths:
-            dec = [e for e in p.events if e["k"] == "call" and e["callee"] == DEC]
+            dec = [e for e in p.events if e["k"] == "call" and e["callee"] in DECS]
             if not dec:
                 continue
             d = dec[0]["val"]
